@@ -114,6 +114,10 @@ HURRY_OPS = ("omega_reduce", "pairwise_reduce", "collapse", "concatenate_assign"
              "upper_bound_assign", "least_upper_bound_assign", "map_space_dimensions")
 
 
+HURRY_QUERIES = ("is_bottom", "is_top", "strictly_contains", "equals", "geometrically_equals", "contains", "geometrically_covers",
+                 "is_empty", "definitely_entails", "is_disjoint_from")
+
+
 class Gen:
     def __init__(self, rnd, cid, maxdim=2, nobj=3, steps=10, ops=None, pq=0.25, closure=True, dimops=True, phurry=0.12):
         self.rnd = rnd; self.cid = cid
@@ -155,7 +159,7 @@ class Gen:
         # with probability phurry the step runs with the abandon flag raised (only its last line: the operation itself)
         if len(self.lines) > n0 and self.rnd.random() < self.phurry:
             t = self.lines[-1].split(" ")
-            if (t[0] == "op" and t[2] in HURRY_OPS) or (t[0] == "qry" and t[2] == "is_bottom"):
+            if (t[0] == "op" and t[2] in HURRY_OPS) or (t[0] == "qry" and t[2] in HURRY_QUERIES):
                 self.lines[-1] = "hurry " + self.lines[-1]
 
     def step0(self):
@@ -305,7 +309,7 @@ def hurry_cases(seed, n, start=0):
                 else:
                     L.append("op %d add_disjunct %s" % (oid, cons(g.piece(dim))))
             if rnd.random() < 0.7: L.append("op %d omega_reduce" % oid)      # operand already flagged reduced
-        ops = ["concatenate_assign"] * 4 + ["meet_assign", "upper_bound_assign", "omega_reduce", "pairwise_reduce", "collapse 2", "qry", "difference_assign"]
+        ops = ["concatenate_assign"] * 4 + ["meet_assign", "upper_bound_assign", "omega_reduce", "pairwise_reduce", "collapse 2", "qry", "qry", "qry", "difference_assign"]
         for _ in range(rnd.randint(1, 3)):
             o = rnd.choice(ops)
             x = rnd.choice([1, 2]); y = 3 - x
@@ -313,7 +317,9 @@ def hurry_cases(seed, n, start=0):
                 L.append("hurry op %d concatenate_assign %d" % (x, y))
                 break                                                        # dimensions differ afterwards
             elif o in ("meet_assign", "upper_bound_assign", "difference_assign"): L.append("hurry op %d %s %d" % (x, o, y))
-            elif o == "qry": L.append("hurry qry %d is_bottom" % x)
+            elif o == "qry":
+                q = rnd.choice(HURRY_QUERIES)
+                L.append("hurry qry %d %s" % (x, q) if q in ("is_bottom", "is_top", "is_empty") else "hurry qry %d %s %d" % (x, q, y))
             else: L.append("hurry op %d %s" % (x, o))
         L.append("qry 1 OK")
         L.append("end")
